@@ -260,6 +260,14 @@ Proof.
       * apply (IH _ _ files _ _ _ Hinv Hrun).
 Qed.
 
+(* the regenerated shape of _prune_empty_dirs: a parent pushed after a removed child is examined again *)
+Lemma gen_prune_revisits : prune_visits_once = false.
+Proof. reflexivity. Qed.
+
+Lemma prune_dirs_eq dirs f :
+  prune_dirs dirs f = prune_loop (prune_fuel (sort_desc (dedup dirs)) f) (sort_desc (dedup dirs)) f [].
+Proof. unfold prune_dirs, prune_dirs_gen. rewrite gen_prune_revisits. reflexivity. Qed.
+
 Lemma rdf_trace q f :
   let r := remove_deletable_files q f in
   trace_inv f (r_fs r) (r_files r) (r_dirs r) /\ (forall x, In x (r_files r) -> rdf_ok q f x).
@@ -269,7 +277,7 @@ Proof.
   destruct (prune_dirs (qdirs q) f1) as [f2 dlog] eqn:H2. cbn [r_fs r_files r_dirs].
   destruct (rdf_files_inv q f _ [] f1 flog (fun x (H : In x []) => match H with end) (trace_inv_init f) H1)
     as [Hinv1 Hok1].
-  unfold prune_dirs in H2. pose proof (prune_loop_inv f _ _ f1 flog [] f2 dlog Hinv1 H2) as Hinv2.
+  rewrite prune_dirs_eq in H2. pose proof (prune_loop_inv f _ _ f1 flog [] f2 dlog Hinv1 H2) as Hinv2.
   split.
   - destruct Hinv2 as [A B C D]. constructor.
     + exact A.
@@ -1333,7 +1341,7 @@ Proof.
   { pose proof (rdf_files_removes q p v h (sort_desc (dedup (map fst (qfiles q)))) f [] Hq Hv) as Hr.
     rewrite H1 in Hr. cbn [fst] in Hr. apply Hr; [|exact Hg].
     apply in_sort_desc, in_dedup. apply (qfile_get_in q p v Hq). }
-  unfold prune_dirs in H2.
+  rewrite prune_dirs_eq in H2.
   pose proof (prune_loop_inv f1 _ _ f1 [] [] f2 dlog (trace_inv_init f1) H2) as Hinv.
   destruct (fs_get f2 p) as [e|] eqn:E; [|reflexivity].
   apply (ti_sub _ _ _ _ Hinv) in E. congruence.
@@ -1460,7 +1468,7 @@ Proof.
   intros Hin. cbv zeta. intros Hg He. unfold remove_deletable_files.
   destruct (rdf_files q _ f []) as [f1 flog] eqn:H1. cbn [fst] in Hg, He.
   destruct (prune_dirs (qdirs q) f1) as [f2 dlog] eqn:H2. cbn [r_fs].
-  unfold prune_dirs in H2.
+  rewrite prune_dirs_eq in H2.
   pose proof (prune_loop_removes_empty d (prune_fuel (sort_desc (dedup (qdirs q))) f1)
                 (sort_desc (dedup (qdirs q))) f1 []) as Hp.
   rewrite H2 in Hp. cbn [fst] in Hp. apply Hp; [unfold prune_fuel; lia | | exact Hg | exact He].
